@@ -122,6 +122,7 @@ func peerClass(p *peerScript) string {
 func account(sc *scenario, n int, o *outcome, v verdict) {
 	hx.Eval()
 	hx.Class("ctx/" + sc.Ctx)
+	hx.Class("scheme/" + map[bool]string{true: "ws-or-wss", false: sc.Scheme}[sc.Scheme == ""])
 	hx.Class("entry/" + map[bool]string{true: "Dialer.Dial", false: "ws.Dial+DefaultDialer"}[sc.Entry == ""])
 	hx.Class("wrap/" + map[bool]string{true: "none", false: sc.Wrap}[sc.Wrap == ""])
 	hx.Class("timeout/" + timeoutClass(sc))
@@ -166,7 +167,7 @@ func account(sc *scenario, n int, o *outcome, v verdict) {
 		return
 	}
 	hx.Class("nontrivial")
-	key := hx.Hash(sc.Entry, sc.Wrap, sc.Ctx, timeoutClass(sc), peerClass(&sc.Peer), sc.RBuf, sc.WBuf, n, sc.Plan.label(), sc.Plan.IO, v.BoundKind, o.AtReturn.IOs, v.Outcome)
+	key := hx.Hash(sc.Scheme, sc.Entry, sc.Wrap, sc.Ctx, timeoutClass(sc), peerClass(&sc.Peer), sc.RBuf, sc.WBuf, n, sc.Plan.label(), sc.Plan.IO, v.BoundKind, o.AtReturn.IOs, v.Outcome)
 	hx.NonTrivial(key, func() interface{} { return describe(sc, n, o, v) })
 }
 
@@ -201,6 +202,7 @@ func drawConfig(t *rapid.T) *scenario {
 	p.Tail = rapid.SampledFrom([]int{0, 0, 0, 5}).Draw(t, "tail")
 	p.Gate = rapid.SampledFrom([]int{0, 0, 0, 0, 0, 10, 30, -1}).Draw(t, "gate")
 	p.SlowDL = rapid.IntRange(0, 2).Draw(t, "slowSetDeadline") == 0
+	sc.Scheme = rapid.SampledFrom([]string{"", "", "", "", "", "", "", "", "", "WS", "http", "https", "wws", "path", "bad"}).Draw(t, "scheme")
 	if rapid.IntRange(0, 3).Draw(t, "entry") == 0 {
 		sc.Entry = "package"
 	}
@@ -287,6 +289,9 @@ func TestStalledPeerLimits(t *testing.T) {
 	hx.Check(t, 0.5, func(rt *rapid.T) {
 		sc := drawConfig(rt)
 		sc.DialFail = false
+		if sc.refused() {
+			sc.Scheme = ""
+		}
 		sc.Peer.EOF = false
 		switch rapid.IntRange(0, 3).Draw(rt, "stall") {
 		case 0:
@@ -335,6 +340,9 @@ func TestSuccessRace(t *testing.T) {
 		sc := drawConfig(rt)
 		sc.DialFail = false
 		sc.Timeout, sc.TimeoutNs = 0, 0
+		if sc.refused() {
+			sc.Scheme = "WS"
+		}
 		if sc.Wrap == "tls-default" {
 			sc.Wrap, sc.Peer.TLS = "both", false
 		}
@@ -634,6 +642,58 @@ func TestEveryExpiryInstant(t *testing.T) {
 		}
 	}
 	hx.Part("18 kinds of limit x 8 instants x (5 stalling/slow peers + 2 peers stalling inside the crypto/tls handshake) x NetDial delay {0,20ms} x {default write buffer, 64-byte write buffer, slow SetDeadline, TLSClient+WrapConn wrappers}", total, true)
+}
+
+// TestEveryURLKind enumerates the URL dimension: every scheme (dialable and
+// refused) x entry point x conn chain x context kind x {no cancellation,
+// cancelled before Dial, limits that would fire later}. Whatever Dial does
+// with the URL, no conn handed out by NetDial may stay open behind an error.
+func TestEveryURLKind(t *testing.T) {
+	var total int64
+	idx := 0
+	for _, scheme := range []string{"", "WS", "http", "https", "wws", "path", "bad"} {
+		for _, entry := range []string{"", "package"} {
+			for _, wrap := range []string{"", "tlsclient", "wrapconn", "both", "tls-default"} {
+				idx++
+				if !hx.Mine(idx) {
+					continue
+				}
+				for _, ctx := range []string{"background", "cancel", "custom", "deadline", "cancelcause"} {
+					for _, pk := range []string{"never", "pre", "after-return"} {
+						for _, timeout := range []int{0, 55} {
+							sc := scenario{Scheme: scheme, Entry: entry, Wrap: wrap, Ctx: ctx, Deadline: 93, Timeout: timeout, DialDelay: 10,
+								Peer: peerScript{Resp: "valid", Cuts: []int{500}, Deliver: -1}, Plan: plan{Kind: "never"}}
+							if wrap == "tls-default" {
+								sc.Peer = tlsPeers[2].p
+							}
+							if sc.cancellable() {
+								sc.Plan.Kind = pk
+							} else if pk != "never" {
+								continue
+							}
+							o := runCase(t, &sc)
+							v := judge(&sc, o)
+							if v.Infra != "" {
+								hx.Failf(t, describe(&sc, 0, o, v), "VERIF-INFRA: %s", v.Infra)
+								return
+							}
+							if v.Violation != "" {
+								hx.Failf(t, describe(&sc, 0, o, v), "%s", v.Violation)
+								return
+							}
+							if sc.refused() && o.Err == nil {
+								hx.Failf(t, describe(&sc, 0, o, v), "Dial returned a nil error for a URL that is not a ws/wss URL")
+								return
+							}
+							account(&sc, o.AtReturn.IOs, o, v)
+							total++
+						}
+					}
+				}
+			}
+		}
+	}
+	hx.Part("7 URL kinds (ws/wss, upper-case, http, https, wws, path-only, unparseable) x 2 entry points x 5 conn chains x 5 context kinds x {never, cancelled before Dial, cancelled after return} x Timeout {0, 55ms}", total, true)
 }
 
 // ---------------------------------------------------------------------------
